@@ -8,7 +8,11 @@
 //   mode heap : a random sequence of constructions, wraps of caller arrays, copies, moves, assignments,
 //               cell writes, arithmetic and destructions over 6 variables and 2 caller arrays;
 //               after each operation every live raster and both arrays are printed (under ASan a
-//               double free / use after free / free of a caller array aborts the run)
+//               double free / use after free / free of a caller array aborts the run).
+//               Assignments and destructions also print `st:<null|ext<e>|heap>:<kept|freed|na>`: where the
+//               data pointer the variable gives up pointed to, and whether that memory is still an allocated
+//               block afterwards (asked from the ASan allocator; `na` without ASan or for a null pointer).
+//               Case 0 is a fixed sequence with assignments INTO rasters that wrap caller arrays (finding F31).
 // Line protocol: `raster.<cmd> <inputs> => <observed>`; a raster is `rows cols cell...`,
 // int cells in decimal, double cells as `num/den` (only dyadic values are generated).
 #include <pops/raster.hpp>
@@ -304,6 +308,21 @@ static void emit_eq(verif::Case& cs) {
 static const int NS = 6;
 static const int EXT_LEN[2] = {6, 4};
 
+// Is the block at p still allocated? The harness's only view of new[] / delete[]: the ASan allocator's own books.
+#if defined(__SANITIZE_ADDRESS__)
+#define VERIF_HAVE_ASAN 1
+#elif defined(__has_feature)
+#if __has_feature(address_sanitizer)
+#define VERIF_HAVE_ASAN 1
+#endif
+#endif
+#ifdef VERIF_HAVE_ASAN
+extern "C" int __sanitizer_get_ownership(const volatile void* p);
+static const char* block_state(const void* p) { return !p ? "na" : __sanitizer_get_ownership(p) ? "kept" : "freed"; }
+#else
+static const char* block_state(const void*) { return "na"; }
+#endif
+
 struct Pool {
     RI* v[NS];
     int* ext[2];
@@ -318,13 +337,95 @@ struct Pool {
         for (int e = 0; e < 2; e++) { s += " x " + std::to_string(EXT_LEN[e]); for (int k = 0; k < EXT_LEN[e]; k++) s += " " + std::to_string(ext[e][k]); }
         return s;
     }
+    // where a data pointer points: null, the start of caller array e, or anything else (heap storage of a raster)
+    std::string cls(const int* p) const { if (!p) return "null"; for (int e = 0; e < 2; e++) if (p == ext[e]) return "ext" + std::to_string(e); return "heap"; }
+    std::string gave_up(const int* p) const { return "st:" + cls(p) + ":" + block_state(p); }
     bool occ(int s) const { return v[s] != nullptr; }
     bool has(int s) const { return v[s] && v[s]->data(); }
     long maxabs(int s) const { long m = 0; if (has(s)) for (long k = 0; k < (long)v[s]->rows() * v[s]->cols(); k++) m = std::max(m, std::labs((long)v[s]->data()[k])); return m; }
     bool nonneg(int s) const { if (has(s)) for (long k = 0; k < (long)v[s]->rows() * v[s]->cols(); k++) if (v[s]->data()[k] < 0) return false; return true; }
 };
 
+// the three operations in which a variable gives up storage; each returns its protocol line up to the status token
+static std::string do_copyassign(Pool& P, int s, int t) {
+    const int* old = P.v[s]->data();
+    *P.v[s] = *P.v[t];
+    if (s != t && P.cls(old).compare(0, 3, "ext") == 0) stats.add("h_assign_into_wrapper");
+    stats.add(s == t ? "h_copyassign_self" : "h_copyassign");
+    return "raster.h.copyassign " + std::to_string(s) + " " + std::to_string(t) + " => " + P.gave_up(old);
+}
+static std::string do_moveassign(Pool& P, int s, int t) {
+    const int* old = P.v[s]->data();
+    RI& src = *P.v[t];
+    *P.v[s] = std::move(src);
+    if (s != t && P.cls(old).compare(0, 3, "ext") == 0) stats.add("h_assign_into_wrapper");
+    stats.add(s == t ? "h_moveassign_self" : "h_moveassign");
+    return "raster.h.moveassign " + std::to_string(s) + " " + std::to_string(t) + " => " + P.gave_up(old);
+}
+static std::string do_destroy(Pool& P, int s) {
+    const int* old = P.v[s]->data();
+    delete P.v[s]; P.v[s] = nullptr;
+    stats.add("h_destroy");
+    return "raster.h.destroy " + std::to_string(s) + " => " + P.gave_up(old);
+}
+static void tear_down(Pool& P, std::ostream& out) {
+    // destroy what is left, then the caller reads its arrays once more and frees them
+    for (int s = 0; s < NS; s++) if (P.v[s]) { std::string l = do_destroy(P, s); out << l << P.obs() << "\n"; }
+    for (int e = 0; e < 2; e++) delete[] P.ext[e];
+}
+
+// Case 0: assignments INTO rasters that wrap caller arrays (F31), fixed.
+//   v0 wraps array 0 (2x3); v0 = v1 (copy): detached, new buffer not owned; writes and the caller's own write no
+//   longer meet; v0 = v2 (another shape): the first buffer is dropped unreleased; v3 wraps array 1, v3 = move(v1):
+//   detached, now an owner; the detached v0 is moved to v4 and destroyed (buffer stays allocated); the moved-from
+//   v0 (still not owning) is assigned again and destroyed at the end; v5: self-assignments keep a wrapper a wrapper.
+static void emit_heap_witness(verif::Case& cs) {
+    std::cout.flush();
+    std::ostream& out = cs.out;
+    Pool P;
+    static const int A0[6] = {1, 2, 3, 4, 5, 6}, A1[4] = {10, 20, 30, 40};
+    for (int k = 0; k < 6; k++) P.ext[0][k] = A0[k];
+    for (int k = 0; k < 4; k++) P.ext[1][k] = A1[k];
+    out << "raster.h.init " << NS;
+    for (int e = 0; e < 2; e++) { out << " " << EXT_LEN[e]; for (int k = 0; k < EXT_LEN[e]; k++) out << " " << P.ext[e][k]; }
+    out << " =>" << P.obs() << "\n";
+    int done = 0;
+    auto emit = [&](const std::string& l) { out << l << (l.find(" => ") == std::string::npos ? " =>" : "") << P.obs() << "\n"; done++; };
+    auto wrap = [&](int s, int e, int r, int c) { P.v[s] = new RI(P.ext[e], r, c); stats.add("h_wrap");
+        emit("raster.h.wrap " + std::to_string(s) + " " + std::to_string(e) + " " + std::to_string(r) + " " + std::to_string(c)); };
+    auto construct = [&](int s, int r, int c, int v) { P.v[s] = new RI(r, c, v); stats.add("h_construct");
+        emit("raster.h.construct " + std::to_string(s) + " " + std::to_string(r) + " " + std::to_string(c) + " " + std::to_string(v) + " 0"); };
+    auto write = [&](int s, int r, int c, int v) { (*P.v[s])(r, c) = v; stats.add("h_write");
+        emit("raster.h.write " + std::to_string(s) + " " + std::to_string(r) + " " + std::to_string(c) + " " + std::to_string(v)); };
+    auto extwrite = [&](int e, int i, int v) { P.ext[e][i] = v; stats.add("h_extwrite");
+        emit("raster.h.extwrite " + std::to_string(e) + " " + std::to_string(i) + " " + std::to_string(v)); };
+    auto movector = [&](int s, int t) { P.v[s] = new RI(std::move(*P.v[t])); stats.add("h_movector");
+        emit("raster.h.movector " + std::to_string(s) + " " + std::to_string(t)); };
+    wrap(0, 0, 2, 3);
+    construct(1, 2, 3, 7);
+    emit(do_copyassign(P, 0, 1));      // F31: array 0 does not receive the sevens
+    write(0, 0, 0, 9);                 // F31: not visible in array 0
+    extwrite(0, 5, 42);                // F31: not visible through v0
+    construct(2, 1, 2, 8);
+    emit(do_copyassign(P, 0, 2));      // F31: the buffer of the first assignment stays allocated, unreachable
+    wrap(3, 1, 2, 2);
+    emit(do_moveassign(P, 3, 1));      // F31 (move): v3 takes v1's buffer and ownership, array 1 is dropped
+    write(3, 1, 1, 5);                 // F31: not visible in array 1
+    movector(4, 0);                    // the detached, not owned buffer travels to v4
+    emit(do_destroy(P, 4));            // F31: not released
+    emit(do_copyassign(P, 0, 2));      // v0 is a moved-from wrapper (null, not owning): new buffer, not owned
+    wrap(5, 0, 1, 3);
+    emit(do_copyassign(P, 5, 5));      // self-assignments: nothing happens
+    emit(do_moveassign(P, 5, 5));
+    write(5, 0, 1, 11);                // still writes through
+    tear_down(P, out);                 // destroy 0: F31 (not released); destroy 3: released once; destroy 5: array kept
+    stats.add("h_ops_total", done);
+    stats.add("h_witness_f31");
+    cs.nontrivial = true;
+}
+
 static void emit_heap(verif::Case& cs) {
+    if (cs.index == 0) { emit_heap_witness(cs); return; }
     std::cout.flush();
     Rng& rng = cs.rng; std::ostream& out = cs.out;
     Pool P;
@@ -378,17 +479,12 @@ static void emit_heap(verif::Case& cs) {
             stats.add("h_movector");
         } else if (k < 41) {                             // copy assign (self-assignment included)
             int s = pick(occ), t = pick(has); if (s < 0 || t < 0) continue;
-            *P.v[s] = *P.v[t];
-            line << "raster.h.copyassign " << s << " " << t;
-            stats.add(s == t ? "h_copyassign_self" : "h_copyassign");
+            line << do_copyassign(P, s, t);
         } else if (k < 49) {                             // move assign
             int s = pick(occ), t = pick(occ); if (s < 0 || t < 0) continue;
             if (!P.has(t) && rng.coin(70)) continue;
             if (s == t && rng.coin(70)) continue;
-            RI& src = *P.v[t];
-            *P.v[s] = std::move(src);
-            line << "raster.h.moveassign " << s << " " << t;
-            stats.add(s == t ? "h_moveassign_self" : "h_moveassign");
+            line << do_moveassign(P, s, t);
         } else if (k < 62) {                             // write a cell
             int s = pick(has); if (s < 0) continue;
             int r = rng.in(0, P.v[s]->rows() - 1), c = rng.in(0, P.v[s]->cols() - 1), v = rng.in(-20, 20);
@@ -398,9 +494,7 @@ static void emit_heap(verif::Case& cs) {
             stats.add("h_write");
         } else if (k < 69) {                             // destroy
             int s = pick(occ); if (s < 0) continue;
-            delete P.v[s]; P.v[s] = nullptr;
-            line << "raster.h.destroy " << s;
-            stats.add("h_destroy");
+            line << do_destroy(P, s);
         } else if (k < 74) {                             // the caller writes its own array
             int e = rng.in(0, 1), i = rng.in(0, EXT_LEN[e] - 1), v = rng.in(-20, 20);
             P.ext[e][i] = v;
@@ -442,9 +536,7 @@ static void emit_heap(verif::Case& cs) {
         out << l << (l.find(" => ") == std::string::npos ? " =>" : "") << P.obs() << "\n";
         done++;
     }
-    // tear down: destroy what is left, then the caller reads its arrays once more and frees them
-    for (int s = 0; s < NS; s++) if (P.v[s]) { delete P.v[s]; P.v[s] = nullptr; out << "raster.h.destroy " << s << " =>" << P.obs() << "\n"; }
-    for (int e = 0; e < 2; e++) delete[] P.ext[e];
+    tear_down(P, out);
     stats.add("h_ops_total", done);
     cs.nontrivial = done >= 10;
 }
